@@ -151,6 +151,28 @@ MULTI = {
 for _pid, _t in MULTI.items():
     CHECKS[_pid]['text'] += '; multi-step layer: ' + _t
 
+# feature-product layers added after the seeded waves 11 and 12 (DESIGN.md sections 13.12, 13.13)
+PRODUCT = {
+    'C01': 'variables presented as fields of one structured variable; int-declared variables with fractional samples',
+    'C02': 'the same BFS under the interface-aware semantics with input/output declarations; structured samples',
+    'C04': 'unit notations alternating from interval to interval, the same bounded operator nested in itself',
+    'C05': 'time axes with large offsets / tiny spacings (exactly representable); staircase signals over all orders of five levels',
+    'C06': 'predicates whose operands are Boolean / temporal expressions',
+    'C08': 'non-dyadic and float sampling periods (k/1000 s for k = 1..120, thorough 1..1000); the combined class StlDiscreteTimeSpecification',
+    'C09': 'modular presentations under the interface-aware semantics; constants declared with Python numbers; dense online modular monitor compared call by call with the inlined text on a twin monitor',
+    'C10': 'post-reset update() calls that leave a variable out; monitors under the interface-aware semantics',
+    'C11': 'observers (explain, spec_print, get_value, counter) between two evaluations, also under a 500 ms period',
+    'C12': 'bare variables beside future operators after pastify()',
+    'C13': 'periods of a few ns with sub-ns time-stamps',
+    'C14': 'declarations and imports in the text; literals of absurd magnitude or length',
+    'C15': 'comparisons whose operands are comparisons',
+    'C16': 'bounded operators (incl. unless) written in ms / mixed units under a 500 ms period',
+    'C19': 'the combined classes StlDiscreteTimeSpecification / StlDenseTimeSpecification',
+    'C20': 'comparisons over temporal / Boolean operands (second open known finding)',
+}
+for _pid, _t in PRODUCT.items():
+    CHECKS[_pid]['text'] += '; feature-product layer: ' + _t
+
 
 def main():
     props = [json.loads(l) for l in open(os.path.join(ROOT, 'properties.jsonl'))]
